@@ -87,7 +87,7 @@ func isErr(o *WObs) bool { return o.Result.Reason.Kind == "ERROR" }
 var propSpecs = map[string]*propSpec{
 	"C01": {
 		id:      "C01",
-		streams: []stream{{"malformed", 12000}, {"wellformed", 6000}, {"graphs", 1500}, {"prereqs", 3000}, {"bigseg", 3000}, {"operators", 3000}, {"segprobe", 2000}, {"manykinds", 1000}, {"wide", 500}},
+		streams: []stream{{"malformed", 12000}, {"wellformed", 6000}, {"graphs", 1500}, {"prereqs", 3000}, {"bigseg", 3000}, {"operators", 3000}, {"segprobe", 2000}, {"manykinds", 1000}, {"wide", 500}, {"bucketedge", 1500}},
 		proj: func(o *WObs) any {
 			return []any{o.Outcome == "done", o.Result.Index != nil, o.Result.Reason.Kind == "ERROR", o.Result.Reason.ErrorKind}
 		},
@@ -170,7 +170,7 @@ var propSpecs = map[string]*propSpec{
 	},
 	"C05": {
 		id:      "C05",
-		streams: []stream{{"segments", 15000}, {"segprobe", 8000}, {"bucketdense", 4000}, {"segsplit", 3000}, {"wide", 800}},
+		streams: []stream{{"segments", 15000}, {"segprobe", 8000}, {"bucketdense", 4000}, {"segsplit", 3000}, {"wide", 800}, {"bucketedge", 1500}},
 		proj: func(o *WObs) any {
 			return []any{o.Result.Reason.Kind, o.Result.Reason.ErrorKind, o.Result.Reason.RuleIndex, o.SegLookups}
 		},
@@ -179,7 +179,7 @@ var propSpecs = map[string]*propSpec{
 	},
 	"C06": {
 		id:      "C06",
-		streams: []stream{{"rollouts", 6000}, {"bucketsplit", 6000}, {"bucketdense", 4000}},
+		streams: []stream{{"rollouts", 6000}, {"bucketsplit", 6000}, {"bucketdense", 4000}, {"bucketedge", 2000}},
 		proj:    func(o *WObs) any { return []any{o.Result.Index, o.Result.Reason.Kind, o.Result.Reason.ErrorKind} },
 		nontrivial: func(c *EvalCase) bool {
 			for _, f := range allFlags(c) {
@@ -198,7 +198,7 @@ var propSpecs = map[string]*propSpec{
 	},
 	"C07": {
 		id:      "C07",
-		streams: []stream{{"bucketsplit", 10000}, {"rollouts", 6000}, {"bucketdense", 3000}, {"segsplit", 3000}, {"wide", 800}},
+		streams: []stream{{"bucketsplit", 10000}, {"rollouts", 6000}, {"bucketdense", 3000}, {"segsplit", 3000}, {"wide", 800}, {"bucketedge", 4000}},
 		proj:    func(o *WObs) any { return []any{o.Result.Index, o.Result.Reason.Kind, o.Result.Reason.ErrorKind} },
 		nontrivial: func(c *EvalCase) bool {
 			return hasRollout(&c.Flag)
@@ -207,7 +207,7 @@ var propSpecs = map[string]*propSpec{
 	},
 	"C08": {
 		id:      "C08",
-		streams: []stream{{"rollouts", 12000}, {"wellformed", 4000}, {"prereqs", 3000}, {"bucketsplit", 3000}},
+		streams: []stream{{"rollouts", 12000}, {"wellformed", 4000}, {"prereqs", 3000}, {"bucketsplit", 3000}, {"bucketedge", 4000}},
 		proj:    expBits,
 		nontrivial: func(c *EvalCase) bool {
 			for _, f := range allFlags(c) {
